@@ -1362,6 +1362,51 @@ pub fn c10_close_and_request_in_one_batch(rec: &mut Rec, rng: &mut Rng) {
     sim.w.teardown();
 }
 
+/// the refusal message is FIXED: whatever the application's own responses looked like before (their Server identity,
+/// version, content type), a client turned away at capacity reads exactly the documented 503 message
+pub fn c10_fixed_message_after_application_answers(rec: &mut Rec, rng: &mut Rng) {
+    rec.case("capacity-fixed-message");
+    rec.nontrivial();
+    let mut cfg = Cfg::base("C10");
+    cfg.max_clients = 13;
+    let mut sim = Sim::new(rec, cfg);
+    for _ in 0..10 {
+        sim.connect(rec);
+        sim.poll(rec);
+    }
+    for c in 0..2 {
+        sim.send_next(rec, rng, c);
+        while !sim.plans[c].outq.is_empty() {
+            sim.send_next(rec, rng, c);
+        }
+    }
+    for _ in 0..4 {
+        sim.poll(rec);
+    }
+    // answers with the application's own Server identity, HTTP/1.0 and a plain-text type
+    while let Some(h) = sim.w.held.first() {
+        let t = h.tag.clone();
+        let client = h.client;
+        let spec = RespSpec { v11: false, code: 200, ops: vec![BOp::Body(format!("{}:", t).into_bytes()), BOp::Server(b"Mock_Server".to_vec()), BOp::Type(false)] };
+        if let Some(i) = client {
+            sim.plans[i].answered.push(t);
+        }
+        sim.w.respond(rec, 0, &spec);
+        sim.poll(rec);
+    }
+    let x = sim.connect(rec);
+    for _ in 0..3 {
+        sim.poll(rec);
+    }
+    sim.w.client_read(rec, x);
+    if sim.w.clients[x].received != SERVER_FULL {
+        rec.oracle_fail("C10", &format!("after application answers with their own Server identity, the client turned away at capacity read {} instead of the fixed 503 message", hx(&sim.w.clients[x].received)), &sim.w.log);
+    }
+    sim.settle(rec, rng);
+    common_checks(rec, &mut sim, "C10");
+    sim.w.teardown();
+}
+
 /// at capacity, several clients are already waiting in the listener's backlog when a client with an unanswered
 /// request leaves; the application answers between two polls. Each waiting client must end up either refused with
 /// the complete 503 message or accepted and served — never cut off with nothing (the batch of one poll can hold the
@@ -1436,6 +1481,7 @@ pub fn c10(rec: &mut Rec, rng: &mut Rng, thorough: bool) {
         c10_failed_write_frees_slot(rec, rng, requests);
     }
     c10_close_and_request_in_one_batch(rec, rng);
+    c10_fixed_message_after_application_answers(rec, rng);
     for waiting in 1..=3 {
         for before in [false, true] {
             for leave in 0..(if thorough { 3 } else { 1 }) {
